@@ -26,9 +26,19 @@ def run(tier, seed):
     rd = v.run_dir("c02")
     fxv = v.build_harness()
     rng = random.Random(seed)
+    # MC: write-behind / journal / retirement protocol, every crash image of every reachable state
+    mc_viol = []
+    mcs = [ce.mc_model(rd, "MCWriteBehind", "MCWriteBehind_quick_warm.cfg" if tier == "quick" else "MCWriteBehind_full_warm.cfg",
+                       ["CrashSafe", "AckMeansDurable"])]
+    ce.mc_model(rd, "MCWriteBehind", "MCWriteBehind_mut_SyncData.cfg", expect_violation=True, timeout=300)
+    mc_states = sum(r.distinct for r in mcs)
+    mc_trans = sum(r.generated for r in mcs)
+    for r in mcs:
+        if r.violation:
+            mc_viol.append({"what": "model: " + r.violation, "replay": v.save_replay(PROP.lower(), "mc.out", r.out[-5000:]), "key": "mc"})
     viol, st, traces = ce.run_and_validate(PROP, fxv, rd, jobs_for(rng, tier), INV)
     cov = {
-        "states": st["states"], "transitions": st["transitions"],
+        "states": st["states"] + mc_states, "transitions": st["transitions"] + mc_trans, "mc_states": mc_states,
         "traces_validated_against_impl": st["traces"],
         "evaluations": st["images_real"], "distinct_nontrivial": st["traces"],
         "rule": "one trace = one seeded workload (puts of 1-3 block values incl. values embedding valid "
@@ -41,6 +51,7 @@ def run(tier, seed):
         "samples": ce.sample_of(traces[0]) if traces else [],
         "max_unsynced_units": st["max_pending_units"], "generations": st["gens"],
     }
+    viol = mc_viol + viol
     return {"level": "model_checking", "coverage": cov, "violations": viol,
             "assumptions": ["device observer sees every write and fsync (checked by the byte-for-byte replay in selftest)",
                             "block-granular loss/reordering of un-synced writes; journal slots and metadata copies atomic",
